@@ -495,6 +495,21 @@ static void cbor_str_eval(uint64_t idx, void *ctx) {
     }
     run_cbor(s, n);
 }
+/* every head byte x every truncation: the first byte decides how many argument bytes follow (0, 1, 2, 4 or 8); each of the 256
+ * first bytes is followed by 0..9 bytes of three fill patterns, in an exact-size block, so that a decoder that reads more
+ * argument bytes than it has checked for reads past the input (added after a seeded change in libcbor's 8-byte-tag case) */
+static uint64_t cbor_head_total(void) { return 256ull * 10 * 3; }
+static void cbor_head_eval(uint64_t idx, void *ctx) {
+    (void)ctx;
+    BEE_ITEM(idx);
+    static const uint8_t fill[3] = {0x00, 0xff, 0x01};
+    uint8_t s[12];
+    unsigned pat = (unsigned)(idx % 3), len = (unsigned)(idx / 3 % 10);
+    s[0] = (uint8_t)(idx / 30);
+    memset(s + 1, fill[pat], len);
+    V_COUNT("cbor_head_cases", 1);
+    run_cbor(s, 1 + len);
+}
 static struct tmpl CBOR_T[] = {
     T("indef-map", "\xbf\x63\x46\x75\x6e\xf5\x63\x41\x6d\x74\x21\xff", 2, 2, 0),
     T("indef-text-chunks", "\x7f\x61\x61\x62\x62\x63\xff", 2, 2, 0),
@@ -579,6 +594,39 @@ static void cbor_deep_eval(uint64_t idx, void *ctx) {
     V_COUNT("cbor_deep_cases", 1);
     V_MAXSTAT("max_cbor_nesting_consumed", rc == AWS_OP_SUCCESS && rem == 0 ? depth : 0);
     if (rc == AWS_OP_SUCCESS) V_COUNT("nontrivial", 1);
+    blk_free(&b);
+    free(w);
+}
+
+/* deep XML: nesting far beyond the depth limit, in three shapes, driven by the always-descend policy.  The parse has to end
+ * (rejected at the limit) without the callback ever being nested deeper than the limit - a parser whose depth count gets out
+ * of step with its recursion accepts such documents and, deep enough, dies of stack exhaustion (added after a seeded change
+ * that removed two stack entries per finished descent) */
+static const char *xml_deep_kind[3] = {"<a> nested in <a>", "a closed sibling <x></x> in front of every nested <a>", "a closed sibling behind every nested <a>"};
+static uint64_t xml_deep_total(void) { return 3 * 4 * 2; }
+static void xml_deep_eval(uint64_t idx, void *ctx) {
+    (void)ctx;
+    BEE_ITEM(idx);
+    static const size_t depths[4] = {25, 64, 4096, 200000};
+    unsigned kind = (unsigned)(idx % 3), md = (unsigned)(idx / 3 % 2);
+    size_t depth = depths[idx / 6];
+    size_t cap = depth * 24 + 16, n = 0;
+    uint8_t *w = (uint8_t *)malloc(cap);
+    memcpy(w + n, "<r>", 3), n += 3; /* one root around everything */
+    for (size_t i = 0; i < depth; ++i) {
+        if (kind == 1) memcpy(w + n, "<x></x>", 7), n += 7;
+        memcpy(w + n, "<a>", 3), n += 3;
+    }
+    w[n++] = 't';
+    for (size_t i = 0; i < depth; ++i) {
+        memcpy(w + n, "</a>", 4), n += 4;
+        if (kind == 2) memcpy(w + n, "<x></x>", 7), n += 7;
+    }
+    memcpy(w + n, "</r>", 4), n += 4;
+    if (v_replay_token) v_out("INFO case %s: parser=xml %s, %zu levels, input %zu bytes, max_depth %s", v_replay_token, xml_deep_kind[kind], depth, n, md ? "50" : "default (20)");
+    V_COUNT("xml_deep_cases", 1);
+    struct blk b = blk_new(w, n);
+    xml_once(b.p, n, w, XP_DESCEND, md ? 50 : 0);
     blk_free(&b);
     free(w);
 }
@@ -1230,7 +1278,9 @@ int main(int argc, char **argv) {
     REG("json_edit", json_edit_total, json_edit_eval, 10);
     REG("cbor_str", cbor_str_total, cbor_str_eval, 10);
     REG("cbor_edit", cbor_edit_total, cbor_edit_eval, 20);
+    REG("cbor_head", cbor_head_total, cbor_head_eval, 10);
     REG("cbor_deep", cbor_deep_total, cbor_deep_eval, 30);
+    REG("xml_deep", xml_deep_total, xml_deep_eval, 30);
     REG("uri_str", uri_str_total, uri_str_eval, 10);
     REG("uri_edit", uri_edit_total, uri_edit_eval, 10);
     REG("date_str", date_str_total, date_str_eval, 10);
